@@ -188,9 +188,9 @@ func cellValid(kind, context string, thenSkip bool) bool {
 		// Fatal / Fatalf / FailNow raised under a recover of the user's code, which swallows the panic that carries it
 		return sigClass(kind) == "fatal" && !thenSkip
 	case "bodycs":
-		// signalled in the body of a test case that has registered a cleanup which skips: the skip must not undo a
-		// failure that was signalled through T (a raw panic replaced by the skip is a known limit, DESIGN.md section 6)
-		return sigClass(kind) != "panic" && !thenSkip
+		// signalled in the body of a test case that has registered a cleanup which skips: the skip must not undo the
+		// failure (whether it was signalled through T or is a panic on its way up)
+		return !thenSkip
 	}
 	if context == "go" && !nonfatal {
 		return false // fatal signals and panics on another goroutine kill the process by design
